@@ -68,6 +68,66 @@ def contracts():
         inline=["CsvPath.limit_collection_to"], class_fields=CF, macros=MACROS, returns="list[str]", native={"skip": True},
         property_clauses={"identity_when_no_collect": "C06,C01"},
         doc={"identity_when_no_collect": "C06: 'Unless the csvpath itself rewrites or projects the line (replace, append, collect), every returned line has exactly the cells of the record'"}))
+    nl = core.line_monitor_next_line()
+    nl._foreign = True
+    return cs + delivery_contracts() + [nl]
+
+
+def delivery_contracts():
+    """the lines next() works on are exactly the records the reader gives, in order, each tracked by the line monitor before it is handed on"""
+    cs = []
+    FRD = "csvpath/util/file_readers.py"
+    CF["DataFileReader"] = {**CF.get("DataFileReader", {}), "g_lines": "list[val]"}
+    CF["CsvPath"].update({"g_track_calls": "int", "g_tracked": "list[val]", "g_finalize_calls": "int", "g_yielded_lines": "list[val]", "g_reader_lines": "list[val]"})
+    CF["Scanner"] = {**CF.get("Scanner", {}), "filename": "optstr"}
+    cs.append(Contract(target=f"{FRD}::DataFileReader.next", interface=True, types={}, returns="expr:self.g_lines", ensures={"the_records": "result is self.g_lines"}, class_fields=CF,
+                       assumptions=["DataFileReader.next() yields the records csv.reader parses from the file, in file order (csv module: bounded in C06.bounded)"]))
+    cs.append(Contract(target=f"{MATCHER}::Matcher.clear_caches", interface=True, types={}, returns="none", class_fields=CF,
+                       assumptions=["Matcher.clear_caches drops reference caches; it touches no variable, counter or verdict"]))
+    cs.append(Contract(target=f"{CP}::CsvPath.track_line", interface=True, variant="logged", types={"line": "val"}, modifies=["self.g_track_calls", "self.g_tracked"],
+                       ensures={"logged": "self.g_track_calls == old(self.g_track_calls) + 1 and self.g_tracked == old(self.g_tracked) + [line]"}, returns="none", class_fields=CF,
+                       assumptions=["CsvPath.track_line is under its own contract below (advances the line monitor once)"]))
+    cs.append(Contract(target=f"{CP}::CsvPath.finalize", interface=True, variant="logged", types={}, modifies=["self.g_finalize_calls", "self._freeze_path"],
+                       ensures={"n": "self.g_finalize_calls == old(self.g_finalize_calls) + 1 and self._freeze_path == True"}, returns="none", class_fields=CF,
+                       assumptions=["CsvPath.finalize is under its own contract below"]))
+    cs.append(Contract(
+        target=f"{CP}::CsvPath._next_line", variant="body",
+        types={"self.scanner": "obj:Scanner", "self.scanner.filename": "str", "self.g_yielded_lines": "list[val]", "self.g_tracked": "list[val]", "self.delimiter": "val", "self.quotechar": "val"},
+        modifies=["self.g_yielded_lines", "self.g_track_calls", "self.g_tracked", "self.g_finalize_calls", "self._freeze_path"],
+        requires=["len(self.g_tracked) == 0 and len(self.g_yielded_lines) == 0"],
+        ensures={"tracks_every_line_it_yields_in_the_same_order": "self.g_tracked == self.g_yielded_lines",
+                 "yields_exactly_the_readers_records_in_order": "self.g_yielded_lines == reader.g_lines",
+                 "finalizes_once_after_the_last_record": "self.g_finalize_calls == old(self.g_finalize_calls) + 1 and self._freeze_path == True"},
+        invariants={0: ["self.g_finalize_calls == old(self.g_finalize_calls)", "self.g_tracked == self.g_yielded_lines", "len(self.g_tracked) == _i0",
+                        "self.g_yielded_lines == reader.g_lines[0:_i0]"]},
+        loop_havoc={0: ["self.g_yielded_lines", "self.g_tracked", "self.g_track_calls"]},
+        yield_to="self.g_yielded_lines", stub_new=["DataFileReader"], callee_variants={"CsvPath.track_line": "logged", "CsvPath.finalize": "logged"},
+        class_fields=CF, macros=MACROS, returns="none", native={"skip": True},
+        property_clauses={"tracks_every_line_it_yields_in_the_same_order": "C06,C02,C03", "yields_exactly_the_readers_records_in_order": "C06", "finalizes_once_after_the_last_record": "C07,C13"},
+        doc={"tracks_every_line_it_yields_in_the_same_order": "C06: 'lines are delivered as they are in the file' -- every record the reader gives is counted by the line monitor and handed on, "
+                                                              "none skipped, none reordered (so line numbers are positions of records)"},
+        assumptions=["the records themselves come from DataFileReader.next() ([A] csv.reader); the clause relates what is tracked to what is yielded; the two ghost logs start empty (w.l.o.g.)"]))
+    lm = "self._line_monitor"
+    cs.append(Contract(
+        target=f"{CP}::CsvPath.track_line", variant="body",
+        types={"line": "list[str]", "self.matcher": "obj:Matcher", "self.matcher._line": "list[str]", "self._line_monitor": "obj:LineMonitor", "self._run_started_at": "val"},
+        requires=[f"({lm}._physical_line_count is None) == ({lm}._physical_line_number is None)",
+                  f"({lm}._physical_line_count is None) == ({lm}._data_line_count is None)",
+                  f"({lm}._physical_line_count is None) == ({lm}._data_line_number is None)",
+                  f"implies({lm}._physical_line_count is not None, {lm}._physical_line_count == {lm}._physical_line_number + 1 and {lm}._physical_line_number >= 0 "
+                  f"and {lm}._data_line_count is not None and {lm}._data_line_number is not None and {lm}._data_line_count >= -1)"],
+        modifies=[f"{lm}._physical_line_count", f"{lm}._physical_line_number", f"{lm}._data_line_count", f"{lm}._data_line_number", f"{lm}._last_line_stats", "self._run_started_at"],
+        ensures={"the_line_number_is_the_position_of_the_record": f"{lm}._physical_line_number == (0 if old({lm}._physical_line_number) is None else old({lm}._physical_line_number) + 1)",
+                 "data_lines_count_nonblank_records_only": f"implies(len(line) > 0, {lm}._data_line_count == (1 if (old({lm}._data_line_count) is None or old({lm}._data_line_count) == -1) "
+                                                           f"else old({lm}._data_line_count) + 1))"},
+        inline=["CsvPath.line_monitor", "LineMonitor.physical_line_number", "Matcher.line"],
+        class_fields={**CF, "LineMonitor": {**CF.get("LineMonitor", {}), "_last_line_stats": "val"}}, macros=MACROS, returns="none", native={"skip": True},
+        property_clauses={"the_line_number_is_the_position_of_the_record": "C06,C02,C03", "data_lines_count_nonblank_records_only": "C03"},
+        doc={"the_line_number_is_the_position_of_the_record": "C06/C02: 'line numbers are 0-based positions of CSV records': one step of the monitor per record handed on"}))
+    cs.append(Contract(
+        target=f"{CP}::CsvPath.finalize", variant="body", types={"self.matcher": "obj:Matcher"}, modifies=["self._freeze_path"],
+        ensures={"freezes_the_variables": "self._freeze_path == True"}, class_fields=CF, macros=MACROS, returns="none", native={"skip": True},
+        property_clauses={"freezes_the_variables": "C03,C07"}))
     return cs
 
 
@@ -78,6 +138,6 @@ def bounded(tier, seed):
 
 
 LEVEL = "other"
-EXPLANATION = ("Proved: Header.to_value reads the cell under the header, by name or by index, and reads as absent on a short row; CsvPath.header_index is the first "
+EXPLANATION = ("Proved: CsvPath._next_line hands on exactly the reader's records in order, each tracked first (track_line) and finalizes once; Header.to_value reads the cell under the header, by name or by index, and reads as absent on a short row; CsvPath.header_index is the first "
                "position; limit_collection is the identity without collect(). Bounded: files written by csv.writer are read back through the real CsvPath and "
                "compared with csv.reader's parse (the csv module is the oracle for itself).")
